@@ -1,7 +1,7 @@
 from engine import Obl
 
 META = {
- "level_text": "CBMC bounded model checking of the real qb_vsnprintf_serialize / qb_vsnprintf_deserialize (lib/log_format.c with lib/strlcpy.c, lib/strlcat.c) for a table of 13 numeric/pointer/char/'*'/literal/'%%' formats: the record buffer has EXACTLY max_len bytes (6, 12 or 24, one obligation each) and the decode buffer exactly str_len bytes (symbolic 1..16); all argument values are symbolic over their full range, as is the text length libc reports per directive. SAT decides: encode never writes outside the reserved space and reports <= max_len; decode of every non-truncated record stays inside the caller's buffer and terminates it; the arguments decode hands to snprintf equal the original ones (directive-level faithfulness).",
+ "level_text": "CBMC bounded model checking of the real qb_vsnprintf_serialize / qb_vsnprintf_deserialize (lib/log_format.c with lib/strlcpy.c, lib/strlcat.c) for a table of 15 numeric/pointer/char/'*'/literal/'%%' formats: the record buffer has EXACTLY max_len bytes (6, 12 or 24, one obligation each) and the decode buffer exactly str_len bytes (symbolic 1..16); all argument values are symbolic over their full range, as is the text length libc reports per directive. SAT decides: encode never writes outside the reserved space and reports <= max_len; decode of every non-truncated record stays inside the caller's buffer and terminates it; the arguments decode hands to snprintf equal the original ones (directive-level faithfulness).",
  "level_note": "Format strings are scenario constants: a symbolic format makes CBMC unwind the parser's nine 'goto reprocess' back-edges as nested loops (no result in 200 s). String directives (%s, %.Ns, several %s) are NOT decided: with a symbolic or constant string argument the scenarios did not finish in 100 s (the suspected defects there - precision state carried across directives, location passing max_len after a truncated %s - are listed in DESIGN.md as not decided). libc's own formatting is a contract stub, so 'same text as printf' is relative to printf's compositionality. Trusted: CBMC, strchrnul reference model.",
  "technique": "CBMC bounded model checking (SAT) of real C code over a table of constant format strings with symbolic arguments and exact-size buffers",
  "assumptions": ["allocation never fails", "records that did not fit (encode returned max_len) are not decoded, as in _blackbox_vlogger"],
@@ -14,6 +14,6 @@ def obligations(tier):
         obs.append(Obl("formats-maxlen%d" % ml, "c14_formats.c", defs=["MAXLEN_CONST=%d" % ml, "SLEN_CONST=3", "SKIP_STRINGS", "VERIF_WITNESS_ALL"],
                        unwind=26, n_entries=16, expect_unreached="^W:(decoded|encoded)",
                        timeout=120, mem_gb=4,
-                       bounds={"formats": "plain, %d, a%ub, %-5x, %ld, %lld, %zu, %f, %.2e, %c, %p, 100%%, %*d", "max_len": ml, "str_len": "1..16", "arguments": "full range"},
+                       bounds={"formats": "plain, %d, a%ub, %-5x, %ld, %lld, %zu, %f, %.2e, %c, %p, 100%%, %*d, abc%d%c, abcdefghijklmno%d%c (a %c reached with the record exactly full at max_len 12 / 24)", "max_len": ml, "str_len": "1..16", "arguments": "full range"},
                        units=["lib/log_format.c", "lib/strlcpy.c", "lib/strlcat.c"], stubs=["snprintf = recorder + bounded writer", "strchrnul reference model"]))
     return obs
